@@ -298,7 +298,75 @@ fn helpers_switched_off(run: &Run) {
     );
 }
 
+fn layout_file_rewritten_case(st: &mut crate::runner::Stats, sb: &Sandbox) -> Result<(), Failure> {
+    let path = crate::driver::rewritten_layout_path();
+    let base: serde_json::Value = serde_json::from_str(&std::fs::read_to_string(Layout::Probhat.path()).expect("Probhat.json")).expect("layout json");
+    let revisions = ["\u{0996}", "\u{0997}\u{09CD}", "x", "\u{0995}\u{09CD}\u{09B7}"];
+    let mut opts = Opts::parse("D");
+    opts.layout = Layout::Rewritten;
+    let phon = Opts::parse("D");
+    let fail = |msg: String, rev: usize| Failure::new("wrong-text-after-the-layout-file-was-rewritten", msg, json!({"layout_file_rewritten": rev}));
+    let pf = |p: crate::driver::PanicInfo| Failure::new(panic_kind(&p), p.to_string(), json!({"layout_file_rewritten": 0}));
+    let mut live: Option<Ctx> = None;
+    for (rev, val) in revisions.iter().enumerate() {
+        let mut doc = base.clone();
+        doc["layout"]["Key_k_Normal"] = json!(val);
+        doc["layout"]["Key_1_AltGr"] = json!(format!("{val}{val}"));
+        std::fs::write(path, doc.to_string()).expect("write layout");
+        let lay = load_layout_json(Layout::Rewritten);
+        // (a) a newly created context
+        let fresh = Ctx::new(opts, sb).map_err(pf)?;
+        // (b) the live context: away to the phonetic method and back
+        if let Some(c) = live.as_mut() {
+            c.finish().map_err(pf)?;
+            c.update(phon, sb).map_err(pf)?;
+            c.type_text("k").map_err(pf)?;
+            c.finish().map_err(pf)?;
+            c.update(opts, sb).map_err(pf)?;
+        }
+        for (who, ctx) in [("a newly created context", Some(&fresh)), ("a live context that went to the phonetic method and back", live.as_ref())] {
+            let Some(ctx) = ctx else { continue };
+            for k in &keys().keys {
+                for m in [0u8, 2] {
+                    let Some(want) = layout_value(&lay, k, m & 2 != 0, false) else { continue };
+                    ctx.finish().map_err(pf)?;
+                    let r = ctx.key(k.code, m, 0).map_err(pf)?;
+                    st.evals(1);
+                    if r.text != want {
+                        return Err(fail(format!("revision {rev} of the layout file assigns {want:?} to {} (modifier {m}); {who} emits {:?}", k.name, r.text), rev));
+                    }
+                }
+            }
+            ctx.finish().map_err(pf)?;
+        }
+        if live.is_none() {
+            live = Some(fresh);
+        }
+        st.label("layout-file-revisions-loaded");
+    }
+    let _ = std::fs::remove_file(path);
+    Ok(())
+}
+
+/// "the LOADED layout file": a layout file is rewritten on disk between two loads of the same path - by a newly created
+/// context, and by a live context that goes to the phonetic method and comes back (update-engine, idle).  Every assigned
+/// key must emit what the file says NOW (the test keys get a new value in each of four revisions).
+fn layout_file_rewritten(run: &Run) {
+    let items: Vec<u8> = vec![0];
+    run.exhaustive(
+        "layout-file-rewritten-between-two-loads",
+        &items,
+        |_| Sandbox::new(),
+        |_, st, sb| {
+            layout_file_rewritten_case(st, sb)?;
+            st.nontrivial(hash_of(&"layout-file-rewritten"), || json!({"layout_file_revisions": 4}));
+            Ok(())
+        },
+    );
+}
+
 pub fn run(run: &Run) {
+    layout_file_rewritten(run);
     helpers_switched_off(run);
     after_layout_switch(run);
     same_key_across_update(run);
@@ -404,6 +472,9 @@ fn after_layout_switch(run: &Run) {
 }
 
 pub fn replay(_run: &Run, case: &Value) -> Result<(), Failure> {
+    if case.get("layout_file_rewritten").is_some() {
+        return layout_file_rewritten_case(&mut crate::runner::Stats::new(), &Sandbox::new());
+    }
     if let Some(h) = case.get("helpers_switched_off") {
         let layout = if h["layout"].as_str() == Some("Synthetic") { Layout::Synthetic } else { Layout::Probhat };
         let (word, end) = (h["word"].as_str().unwrap_or_default(), h["ending"].as_u64().unwrap_or(0));
